@@ -1,4 +1,5 @@
 import IvpModel.Driver.MatrixDrv
+import IvpModel.Driver.SolOutDrv
 
 def main (args : List String) : IO UInt32 := do
   let stdin ← IO.getStdin
@@ -6,6 +7,9 @@ def main (args : List String) : IO UInt32 := do
   match args with
   | ["matrix"] =>
       for o in Drv.Matrix.run lines do IO.println o
+      return 0
+  | ["solout"] =>
+      for o in Drv.SolOut.run lines do IO.println o
       return 0
   | _ =>
       IO.eprintln "usage: driver (matrix|...) < lines"
